@@ -15,7 +15,9 @@
 //	            (h ID (k v)*)               *types.Hash
 //	            (o ID xTYPE xDISP (xATTR v)*)   instance of an object type of the catalogue (Verif::Pair/Box/Unit); the
 //	                                        attributes are the entries of its init hash, in order
-//	            (tdef ID xTEXT xDISP)       an object type definition that no loader knows (implementation only)
+//	            (tdef ID xTEXT xDISP init)  an object type definition that no loader knows; init = its init hash as a value
+//	                                        (what the model serializes: an instance of Pcore::ObjectType)
+//	            (tdefx ID xTEXT xDISP)      the same when the init hash cannot be written in this syntax (implementation only)
 //	            (= ID)
 //	          leaf kind td = a named type the loader knows (alias Verif::Ints, object types of the catalogue)
 //	    Out:  <event tree> | <deserialized value, ids renumbered by first occurrence>     (or `| err`)
@@ -65,6 +67,7 @@ type node struct {
 	lk   string // l: leaf kind
 	kids []*node // sn: 1; a: elements; h: k v k v …; o: attribute values
 	names []string // o: attribute names
+	init  *node    // tdef: the type's init hash as a value tree (what the model serializes), nil = not expressible
 }
 
 type badOp struct{ msg string }
@@ -199,9 +202,19 @@ func parse(e sx.Sexp, defined map[int64]*node, open map[int64]bool) *node {
 		delete(open, n.id)
 		defined[n.id] = n
 		return n
-	case "tdef":
-		need(3)
+	case "tdef", "tdefx":
+		// tdef carries the init hash for the model; tdefx (implementation only) does not
+		if (tag == "tdef" && len(a) != 4) || (tag == "tdefx" && len(a) != 3) {
+			bad("arity of %s", e)
+		}
 		n := &node{kind: "tdef", id: id(), s: str(a[1]), disp: str(a[2])}
+		if len(a) == 4 {
+			// the init hash of the type, for the model; it gets its own identities (never shared with the rest)
+			n.init = parse(a[3], map[int64]*node{}, map[int64]bool{})
+			if n.init.kind != "h" {
+				bad("init hash of a type definition")
+			}
+		}
 		defined[n.id] = n
 		return n
 	case "=":
@@ -306,12 +319,12 @@ func (b *builder) leaf(kind, enc string) px.Value {
 	case "svr":
 		return types.WrapSemVerRange(semver.MustParseVersionRange(enc))
 	case "ts":
-		// SerializationString of a Timespan is its number of whole seconds
-		n, err := strconv.ParseInt(enc, 10, 64)
-		if err != nil {
+		// the serialized form of a Timespan is the default format [-]D-HH:MM:SS.F (read here by the harness's own parser)
+		d, ok := parseSpan(enc)
+		if !ok {
 			bad("timespan payload")
 		}
-		return types.WrapTimespan(time.Duration(n) * time.Second)
+		return types.WrapTimespan(d)
 	case "tm":
 		return types.ParseTimestamp(enc, types.DefaultTimestampFormats, "")
 	case "uri":
@@ -326,6 +339,43 @@ func (b *builder) leaf(kind, enc string) px.Value {
 	}
 	bad("leaf kind %s", kind)
 	return nil
+}
+
+// fmtSpan / parseSpan: the harness's own reading of the default Timespan format %D-%H:%M:%S.%-N (independent of pcore's)
+func fmtSpan(d time.Duration) string {
+	sign := ""
+	n := int64(d)
+	if n < 0 {
+		sign, n = "-", -n
+	}
+	frac := strings.TrimRight(fmt.Sprintf("%09d", n%1000000000), "0")
+	if frac == "" {
+		frac = "0"
+	}
+	sec := n / 1000000000
+	return fmt.Sprintf("%s%d-%02d:%02d:%02d.%s", sign, sec/86400, sec/3600%24, sec/60%60, sec%60, frac)
+}
+
+func parseSpan(s string) (time.Duration, bool) {
+	neg := strings.HasPrefix(s, "-")
+	if neg {
+		s = s[1:]
+	}
+	var d, h, m, sec int64
+	var frac string
+	if n, err := fmt.Sscanf(s, "%d-%d:%d:%d.%s", &d, &h, &m, &sec, &frac); err != nil || n != 5 || len(frac) > 9 {
+		return 0, false
+	}
+	f, err := strconv.ParseInt(frac+strings.Repeat("0", 9-len(frac)), 10, 64)
+	if err != nil {
+		return 0, false
+	}
+	n := (((d*24+h)*60+m)*60+sec)*1000000000 + f
+	if neg {
+		n = -n
+	}
+	r := time.Duration(n)
+	return r, fmtSpan(r) == map[bool]string{true: "-", false: ""}[neg]+s
 }
 
 // ---- events ---------------------------------------------------------------------------------------------
@@ -523,6 +573,7 @@ func hasKeyEv(e *ev, key string) bool {
 type facts struct {
 	kinds      map[string]bool
 	isData     bool // undef, bool, int, float, string, arrays and string-keyed hashes of those
+	isDataBin  bool // … allowing Binary too (it is handed over as it is to a consumer that can do binary)
 	reserved   bool // a hash whose keys are all strings and that has the key __ptype: re-interpreted by the deserializer
 	ptHashes   [][]string // key kinds of every hash that has the key __ptype
 	ptypeStr   bool // the string __ptype occurs as a hash key somewhere
@@ -543,11 +594,12 @@ func classify(n *node, f *facts, seen map[*node]bool, strs map[string]int) {
 			f.shared = true
 		}
 	}
-	if n.kind == "tdef" {
+	if n.kind == "tdef" && n.init == nil {
 		f.implOnly = true
 	}
 	if n.kind == "o" || n.kind == "tdef" {
 		f.isData = false
+		f.isDataBin = false
 	}
 	if n.id >= 0 && (n.kind == "x" || n.kind == "l" || n.kind == "sn" || n.kind == "a" || n.kind == "h" || n.kind == "o" || n.kind == "tdef") {
 		if seen[n] {
@@ -557,8 +609,11 @@ func classify(n *node, f *facts, seen map[*node]bool, strs map[string]int) {
 		seen[n] = true
 	}
 	switch n.kind {
-	case "x", "l", "sn", "df":
+	case "x":
 		f.isData = false
+	case "l", "sn", "df":
+		f.isData = false
+		f.isDataBin = false
 	case "a":
 		f.containers++
 	case "h":
@@ -576,6 +631,7 @@ func classify(n *node, f *facts, seen map[*node]bool, strs map[string]int) {
 		}
 		if !all {
 			f.isData = false
+			f.isDataBin = false
 		}
 		if all && pt {
 			f.reserved = true
@@ -596,8 +652,10 @@ func classify(n *node, f *facts, seen map[*node]bool, strs map[string]int) {
 // ---- result printing ----------------------------------------------------------------------------------------
 
 type printer struct {
-	ids map[interface{}]int
-	sb  strings.Builder
+	ids   map[interface{}]int
+	sb    strings.Builder
+	fresh func(px.ObjectType) bool // is this object type unknown to the loaders the op started with?
+	anon  bool
 }
 
 func (p *printer) ident(v px.Value) (int, bool) {
@@ -612,6 +670,11 @@ func (p *printer) ident(v px.Value) (int, bool) {
 func (p *printer) print(v px.Value) {
 	w := func(s string) { p.sb.WriteString(s) }
 	labelled := func(tag string) bool {
+		if p.anon {
+			// inside a type definition nothing is printed with an identity (the init hash is rebuilt on every call)
+			w("(" + tag + " -")
+			return true
+		}
 		n, seen := p.ident(v)
 		if seen {
 			w("(= " + strconv.Itoa(n) + ")")
@@ -621,7 +684,7 @@ func (p *printer) print(v px.Value) {
 		return true
 	}
 	leaf := func(kind string, ident bool, enc string) {
-		if ident {
+		if ident && !p.anon {
 			if labelled("l") {
 				w(" " + kind + " " + sx.Str(enc).Atom + ")")
 			}
@@ -675,6 +738,16 @@ func (p *printer) print(v px.Value) {
 	case *types.UriValue:
 		leaf("uri", true, encOf(t))
 	case px.Type:
+		if ot, ok := t.(px.ObjectType); ok && p.fresh != nil && p.fresh(ot) {
+			// an object type no loader knew before this op: it travelled as a Pcore::ObjectType instance
+			w("(o - " + sx.Str("Pcore::ObjectType").Atom)
+			was := p.anon
+			p.anon = true
+			ot.(px.PuppetObject).InitHash().EachPair(func(k, e px.Value) { w(" (" + sx.Str(k.String()).Atom + " "); p.print(e); w(")") })
+			p.anon = was
+			w(")")
+			return
+		}
 		leaf("ty", false, t.String())
 	case px.PuppetObject:
 		if labelled("o") {
@@ -699,6 +772,9 @@ func encOf(v px.Value) string {
 // Sensitive values by what they wrap (the property's reading of equality)
 func normalize(v px.Value) px.Value {
 	switch t := v.(type) {
+	case types.Timespan:
+		// Timespan.Equals compares whole seconds; the round trip is held to the exact duration
+		return types.WrapValues([]px.Value{types.WrapString("\x00timespan"), types.WrapInteger(int64(t.Duration()))})
 	case *types.Sensitive:
 		return types.WrapValues([]px.Value{types.WrapString("\x00sensitive"), normalize(t.Unwrap())})
 	case *types.Array:
@@ -823,19 +899,102 @@ func exec(c px.Context, op string, args []sx.Sexp) (res core.Result) {
 		px.DoWithContext(q, func(ctx px.Context) { res = codec(ctx, args[0].Atom, args[1].MustStr()) })
 		return res
 	}
+	if op == "span" && len(args) == 1 {
+		// the Timespan codec against its model: decode the text the way the deserializer does, print it back
+		src := args[0].MustStr()
+		out := "err"
+		var back px.Value
+		if err := safely(func() { back = px.New(c, c.ParseType("Timespan"), types.WrapString(src)) }); err == nil {
+			if ts, ok := back.(types.Timespan); ok {
+				out = sx.Str(ts.SerializationString()).Atom
+				// direct predicate: the printed form is the harness's own reading of the default format, and is a fixpoint
+				if want := fmtSpan(ts.Duration()); ts.SerializationString() != want {
+					return core.Fail(out, "codec-ts", fmt.Sprintf("%q decodes to %v, printed %q (expected %q)", src, ts.Duration(), ts.SerializationString(), want))
+				}
+			}
+		}
+		return core.Result{Out: out, Pred: "ok", NonTrivial: out != "err", Tags: []string{"span"}}
+	}
 	if op != "ser" || len(args) != 3 {
 		return core.Result{Out: "bad-op", Pred: "FAIL harness-bad-op " + op}
 	}
 	ensureCatalogue(c)
+	parentCtx = c
 	// a fresh defining loader per op: type definitions that arrive in a stream are registered there and nowhere else
 	quiet := pcore.WithParent(context.Background(), px.NewParentedLoader(c.Loader()), nullLogger{}, c.ImplementationRegistry())
 	px.DoWithContext(quiet, func(ctx px.Context) { res = ser(ctx, parseOpts(args[0]), parseCaps(args[1]), args[2]) })
 	return res
 }
 
+// freshType: an object type is fresh when the worker's own loader (the parent of the per-op loader) cannot load it
+func freshType(parent px.Context) func(px.ObjectType) bool {
+	return func(t px.ObjectType) bool {
+		if t.Name() == "" {
+			return true
+		}
+		_, ok := px.Load(parent, px.NewTypedName(px.NsType, t.Name()))
+		return !ok
+	}
+}
+
+var parentCtx px.Context
+
+// valueNode renders a px.Value (the init hash of a type definition) as a value tree; ok=false when it holds something
+// the op syntax cannot say
+func valueNode(v px.Value, next *int64, fresh func(px.ObjectType) bool) (n *node, ok bool) {
+	id := func() int64 { *next++; return *next }
+	switch t := v.(type) {
+	case *types.UndefValue:
+		return &node{kind: "u"}, true
+	case *types.DefaultValue:
+		return &node{kind: "df"}, true
+	case px.Boolean:
+		return &node{kind: "b", b: t.Bool()}, true
+	case px.Integer:
+		return &node{kind: "i", i: t.Int()}, true
+	case px.Float:
+		return &node{kind: "f", f: math.Float64bits(t.Float())}, true
+	case px.StringValue:
+		return &node{kind: "s", s: t.String()}, true
+	case *types.Array:
+		n = &node{kind: "a", id: id()}
+		ok = true
+		t.Each(func(e px.Value) {
+			k, o := valueNode(e, next, fresh)
+			ok = ok && o
+			n.kids = append(n.kids, k)
+		})
+		return n, ok
+	case *types.Hash:
+		n = &node{kind: "h", id: id()}
+		ok = true
+		t.EachPair(func(k, e px.Value) {
+			kn, o1 := valueNode(k, next, fresh)
+			en, o2 := valueNode(e, next, fresh)
+			ok = ok && o1 && o2
+			n.kids = append(n.kids, kn, en)
+		})
+		return n, ok
+	case px.Type:
+		if ot, isObj := t.(px.ObjectType); isObj && fresh(ot) {
+			return nil, false // a nested fresh definition: not expressed
+		}
+		if _, isAlias := t.(*types.TypeAliasType); isAlias {
+			return &node{kind: "l", id: id(), lk: "td", s: t.String(), disp: t.String()}, true
+		}
+		if _, isObj := t.(px.ObjectType); isObj {
+			return &node{kind: "l", id: id(), lk: "td", s: t.String(), disp: t.String()}, true
+		}
+		if ss, isS := t.(px.SerializeAsString); isS && ss.CanSerializeAsString() {
+			return &node{kind: "l", id: id(), lk: "ty", s: t.String(), disp: t.String()}, true
+		}
+	}
+	return nil, false
+}
+
 func ser(c px.Context, o opts, cp caps, vs sx.Sexp) core.Result {
 	root := parse(vs, map[int64]*node{}, map[int64]bool{})
-	f := &facts{kinds: map[string]bool{}, isData: true}
+	f := &facts{kinds: map[string]bool{}, isData: true, isDataBin: true}
 	classify(root, f, map[*node]bool{}, map[string]int{})
 	tags := []string{}
 	for k := range f.kinds {
@@ -868,6 +1027,20 @@ func ser(c px.Context, o opts, cp caps, vs sx.Sexp) core.Result {
 	}
 	// the abstract payloads the model works with must be what the real codecs print
 	for n, lv := range bld.memo {
+		if n.kind == "tdef" && n.init != nil {
+			// the init hash written in the op (what the model serializes) must be the type's own
+			var sb1, sb2 strings.Builder
+			n.init.write(&sb1, map[*node]bool{})
+			next := int64(1000)
+			if ot, ok := lv.(px.ObjectType); ok {
+				if mine, ok := valueNode(ot.(px.PuppetObject).InitHash(), &next, freshType(parentCtx)); ok {
+					mine.write(&sb2, map[*node]bool{})
+				}
+			}
+			if sb1.String() != sb2.String() {
+				bad("init hash of the type definition differs: %s / %s", sb1.String(), sb2.String())
+			}
+		}
 		if n.kind == "o" {
 			if d := lv.String(); d != n.disp {
 				return fail("leaf-codec", "leaf-codec", fmt.Sprintf("object prints %q (expected %q)", d, n.disp))
@@ -915,30 +1088,40 @@ func ser(c px.Context, o opts, cp caps, vs sx.Sexp) core.Result {
 		return fail("ser-panic", "ser-panic", fmt.Sprint(err))
 	}
 
+	// stream laws first: a stream with a dangling reference is not fed to the collector (a reference to a container that
+	// is still open would make it build a cyclic value, on which printing and Equals do not terminate; the model answers
+	// `err` for both kinds of dangling reference)
+	l := &laws{}
+	expanded := l.expand(stream, false)
+
 	// deserialize the recorded events with the real collector
 	out := evs + " | "
 	var back px.Value
-	derr := safely(func() {
-		ds := serialization.NewDeserializer(c, px.EmptyMap)
-		feed(stream, ds)
-		back = ds.Value()
-	})
-	if derr != nil {
+	var derr interface{}
+	if l.dangling != "" {
+		derr = l.dangling
 		out += "err"
 	} else {
-		p := &printer{ids: map[interface{}]int{}}
-		if err := safely(func() { p.print(back) }); err != nil {
+		derr = safely(func() {
+			ds := serialization.NewDeserializer(c, px.EmptyMap)
+			feed(stream, ds)
+			back = ds.Value()
+		})
+		if derr != nil {
 			out += "err"
-			derr = err
 		} else {
-			out += p.sb.String()
+			p := &printer{ids: map[interface{}]int{}, fresh: freshType(parentCtx)}
+			if err := safely(func() { p.print(back) }); err != nil {
+				out += "err"
+				derr = err
+			} else {
+				out += p.sb.String()
+			}
 		}
 	}
 
 	// ---- the property, directly on the implementation (judge) ----
 	// stream laws: hold for every value, option and capability
-	l := &laws{}
-	expanded := l.expand(stream, false)
 	if l.dangling != "" {
 		return fail(out, "dangling-ref", l.dangling)
 	}
@@ -977,7 +1160,7 @@ func ser(c px.Context, o opts, cp caps, vs sx.Sexp) core.Result {
 		}
 	}
 	// round trip
-	claimed := o.rich || f.isData
+	claimed := o.rich || f.isData || (f.isDataBin && cp.bin)
 	if derr != nil {
 		if f.reserved {
 			return fail(out, "reserved-key", "user hash with key __ptype is re-interpreted: "+oneLine(derr))
